@@ -47,6 +47,13 @@ class N:
     def big(self):
         return self.a > 2
 
+    @property
+    def fa(self):
+        """`a`, read through a property that raises at its j-th access when armed (user code failing mid-evaluation)"""
+        from .. import data as _D
+        _D._fault_tick()
+        return self.a
+
     def hi(self):
         return self.c > 2
 
@@ -66,6 +73,12 @@ class Out(OutBase):
     tag: Any = ""
     src: Any = None
     link: Any = None
+
+
+@symbol
+@dataclass(eq=False)
+class OutSub(Out):
+    """a specialisation of the conclusion class, concluded by ANOTHER rule of the same process for the same objects"""
 
 
 @symbol
@@ -153,7 +166,7 @@ def plan(tier, seed):
 def floors(tier):
     return {"distinct_nontrivial": 300, "re:ExceptIf(@.*)?\\.enter": 500, "re:Alternative(@.*)?\\.enter": 500,
             "cls:shape:ref_in_ref": 20, "cls:shape:ref_in_alt": 20, "cls:shape:alt_in_ref": 20, "cls:shape:alt_chain": 20,
-            "cls:overridden": 200, "cls:alt_fired": 200, "cls:caching_off": 50, "cls:conclusions_spelled_positionally": 100, "cls:bare_call_as_branch_condition": 150,
+            "cls:overridden": 200, "cls:alt_fired": 200, "cls:caching_off": 50, "cls:conclusions_spelled_positionally": 100, "cls:preceded_by_an_evaluation_in_which_user_code_raised": 60, "cls:earlier_rule_concluded_a_subclass_for_the_same_objects": 100, "cls:bare_call_as_branch_condition": 150,
             "cls:style:sibling_alternatives": 200, "cls:join_in_tree": 300, "cls:tree_extended_after_it_was_evaluated": 150, "cls:join_item_with_two_links": 200, "cls:alternative_declared_before_refinement": 200, "re:cls:longest_alternative_chain=[3-9]": 50}
 
 
@@ -166,6 +179,8 @@ def _rand_cond(rng, depth=0):
         return ["and2", _rand_cond(rng, 1), _rand_cond(rng, 1)]
     if k < 0.6:
         return [rng.choice(["bare", "bare", "nbare"]), rng.choice(["big", "hi"])]
+    if k < 0.7:
+        return ["fa", rng.randint(0, 3)]
     return [rng.choice("abc"), rng.randint(0, 3)]
 
 
@@ -175,7 +190,8 @@ def gen_case(rng):
     conds = [_rand_cond(rng) for _ in range(n)]
     data = [[rng.randint(1, 4) for _ in range(3)] for _ in range(rng.randint(3, 7))]
     return {"tree": label(sh, conds), "data": data, "caching": rng.random() < 0.7, "sibling": rng.random() < 0.5,
-            "alt_first": rng.random() < 0.4, "incremental": rng.random() < 0.4, "positional": rng.random() < 0.3}
+            "alt_first": rng.random() < 0.4, "incremental": rng.random() < 0.4, "positional": rng.random() < 0.3,
+            "decoy_rule": rng.random() < 0.2, "boom_at": rng.choice([0, 0, 1, 2, 3, 5, 8])}
 
 
 def gen_join_case(rng):
@@ -247,6 +263,8 @@ def holds(cond, o):
         return getattr(o, cond[1]) > getattr(o, cond[2])
     if cond[0] == "and2":
         return holds(cond[1], o) and holds(cond[2], o)
+    if cond[0] == "fa":          # x.fa > t, the property may raise when armed
+        return o.a > cond[1]
     if cond[0] == "bare":        # a bare method call as the whole condition of a branch: x.big()
         return bool(getattr(o, cond[1])())
     if cond[0] == "nbare":       # ... and its negation: not_(x.big())
@@ -260,6 +278,8 @@ def sym(cond, x):
         return [getattr(x, cond[1]) > getattr(x, cond[2])]
     if cond[0] == "and2":
         return sym(cond[1], x) + sym(cond[2], x)
+    if cond[0] == "fa":
+        return [x.fa > cond[1]]
     if cond[0] == "bare":
         return [getattr(x, cond[1])()]
     if cond[0] == "nbare":
@@ -414,6 +434,15 @@ def build(case, objs, links=None):
     return q
 
 
+def _tags(node, acc=None):
+    acc = set() if acc is None else acc
+    if node is not None:
+        acc.add(node[1])
+        _tags(node[2], acc)
+        _tags(node[3], acc)
+    return acc
+
+
 def encode(o, idx, lidx=None):
     if type(o) is not Out:
         return ("NOT_AN_OUT:" + type(o).__name__, -1)
@@ -427,7 +456,27 @@ def run(case, objs, caching, times=1, links=None):
     (enable_caching if caching else disable_caching)()
     try:
         links = links if links is not None else _links(case, objs)
+        if case.get("decoy_rule") and not case.get("join"):
+            # an earlier rule of the same process concluded a SUBCLASS of the conclusion class, with the same field values, for the
+            # very same objects: the tree below still prescribes (and builds) plain Out instances
+            from entity_query_language import symbolic_mode as _sm, let as _let, entity as _entity, infer as _infer
+            from entity_query_language.symbolic import rule_mode as _rm
+            for t_ in sorted(_tags(case["tree"])):
+                with _rm():
+                    x_ = _let(N, objs)
+                    dq = _infer(_entity(OutSub(tag=t_, src=x_), x_.a > -1))
+                list(dq.evaluate())
         q = build(case, objs, links)
+        if case.get("boom_at") and "'fa'" in repr(case["tree"]):
+            # an evaluation in which user code (a property read by a branch condition) raises; the same tree is evaluated again
+            from .. import data as _D
+            _D.arm_fault(case["boom_at"])
+            try:
+                list(q.evaluate())
+            except _D.Boom:
+                pass
+            finally:
+                _D.arm_fault(None)
         idx = {id(o): i for i, o in enumerate(objs)}
         lidx = {id(k): i for i, k in enumerate(links)} if case.get("join") else None
         return [[encode(o, idx, lidx) for o in q.evaluate()] for _ in range(times)]
@@ -515,6 +564,10 @@ def check_case(case, ctx):
     ctx.cls("cls:caching_on" if case["caching"] else "cls:caching_off")
     if case.get("positional"):
         ctx.cls("cls:conclusions_spelled_positionally")
+    if case.get("boom_at") and "'fa'" in repr(case["tree"]):
+        ctx.cls("cls:preceded_by_an_evaluation_in_which_user_code_raised")
+    if case.get("decoy_rule") and not case.get("join"):
+        ctx.cls("cls:earlier_rule_concluded_a_subclass_for_the_same_objects")
     if "bare" in repr(case["tree"]):
         ctx.cls("cls:bare_call_as_branch_condition")
     tags = {r[0] for r in exp}
